@@ -169,7 +169,7 @@ pub fn run_c04f(args: &Args) -> Report {
                     rep.count("clean-fails-on-directive-fault");
                 }
                 // CLI exit status on a sample
-                if rng.chance(1, 6) && !bin.as_os_str().is_empty() {
+                if rng.chance(1, 2) && !bin.as_os_str().is_empty() {
                     write_tree(&c.before, &runner.dir);
                     let mut cmd = Command::new(&bin);
                     cmd.current_dir(&runner.dir).env_remove("TXTPP_FILE").arg("-q");
@@ -179,7 +179,18 @@ pub fn run_c04f(args: &Args) -> Report {
                         "clean" => { cmd.arg("clean").arg("-q"); }
                         _ => {}
                     }
-                    cmd.arg("-r").arg("-j").arg(cfg.threads.to_string()).arg(".");
+                    cmd.arg("-r").arg("-j").arg(cfg.threads.to_string());
+                    // the whole tree as one input, or every source named on its own (the faulty one somewhere in the list)
+                    let split_inputs = rng.chance(1, 2);
+                    if split_inputs {
+                        let mut names: Vec<String> = p.sources.clone();
+                        if rng.chance(1, 2) {
+                            names.reverse();
+                        }
+                        cmd.args(&names);
+                    } else {
+                        cmd.arg(".");
+                    }
                     let o = cmd.output();
                     let Ok(o) = o else {
                         rep.notes.push("CLI binary could not be started".to_string());
@@ -189,7 +200,7 @@ pub fn run_c04f(args: &Args) -> Report {
                     rep.count("cli-exit-status-checked");
                     let lib_ok = runner.cases[i].imp.verdict == "ok";
                     if (code == Some(0)) != lib_ok {
-                        let what = format!("C04: CLI exit status {:?} disagrees with the library verdict `{}` ({kind}/{pos}/{mode})", code, runner.cases[i].imp.verdict);
+                        let what = format!("C04: CLI exit status {:?} disagrees with the library verdict `{}` ({kind}/{pos}/{mode}, sources named one by one: {split_inputs})", code, runner.cases[i].imp.verdict);
                         let c = &runner.cases[i];
                         rep.violation("oracle", &what, &replay_body(&c.before, &c.cfg, &c.cmds, &format!("# {what}\n")));
                     }
